@@ -237,6 +237,15 @@ func (e *L1) Deliver(msg sdk.Msg) Result {
 	prev := e.Send.Current
 	e.Send.Current = msg
 	defer func() { e.Send.Current = prev }()
+	return deliver(e.Ctx, e.Router, WireCopy(e.Enc.Marshaler, msg))
+}
+
+// DeliverDirect hands the caller's own message value to the handler (no encode/decode round trip):
+// for checks about what a handler does with the memory it is given.
+func (e *L1) DeliverDirect(msg sdk.Msg) Result {
+	prev := e.Send.Current
+	e.Send.Current = msg
+	defer func() { e.Send.Current = prev }()
 	return deliver(e.Ctx, e.Router, msg)
 }
 
